@@ -32,6 +32,26 @@ def pag_cycles(rng):
         out.append((Case("cyc%d" % j, lines, {"kinds": [kind, "sparse"]}), exp))
     return out
 
+def far_codec(rng):
+    """Deliberate: encodings whose consecutive indexes are more than 2^31 apart (the indexes fit in an int32, their differences do not), written by
+    a hash-map store or by a paginated store holding them as buffered unit entries, read back by the hash-map and paginated decoders."""
+    out = []; I32MAX, I32MIN = 2 ** 31 - 1, -2 ** 31
+    for j in range(24):
+        src = rng.choice(["sparse", "pag"]); dst = rng.choice(["sparse", "pag", "sparse"])
+        lines = ["new s " + src, "new d " + dst]; exp = ["ok", "ok"]; sh, sd = storegen.Shadow(src), storegen.Shadow(dst)
+        idx = rng.choice([[-1200000000, 1200000000], [I32MIN, 0], [I32MIN, I32MAX], [-2 ** 30 - 5, 17, 2 ** 30 + 9], [I32MIN + 3, -1, I32MAX - 2], [0, I32MAX]])
+        for i in idx + [rng.choice(idx)]:
+            if src == "pag" or rng.random() < 0.5: lines.append("add s %d" % i); exp.append("ok"); sh.add(i, Fraction(1))
+            else: w = rng.choice([Fraction(5, 2), Fraction(3)]); lines.append("addw s %d %s" % (i, storegen.wh(w))); exp.append("ok"); sh.add(i, w)
+        if rng.random() < 0.5: lines.append("add d %d" % idx[0]); exp.append("ok"); sd.add(idx[0], Fraction(1))
+        lines += ["enc b s pos", "obs s", "dec d b"]; exp += ["ok", sh.obsline(), "ok"]; sd.merge(sh)
+        lines += ["obs d"]; exp += [sd.obsline()]
+        tot = sd.total()
+        for r in [Fraction(0), tot - 1, tot / 2]:
+            if float(r) == r: lines.append("rank d %s" % storegen.wh(r)); exp.append(str(sd.rank(r)))
+        out.append((Case("far%d" % j, lines, {"kinds": [src, dst]}), exp))
+    return out
+
 def run(tier, seed):
     return storecheck.run_store_property(
         "C04", tier, seed, ["dense", "sparse", "pag", "pag", "dense"], 400 if tier == "quick" else 12000,
@@ -39,6 +59,7 @@ def run(tier, seed):
         "(followed by a mutation of one side), clears, reweightings, encode->decode into another register, bursts of unit adds (buffer compaction, "
         "array growth/shift), observers after every structural step, KeyAtRank at every cumulative boundary +-2^-10, negative and >= total; indexes clustered, "
         "page/array-boundary aligned, near the int32 extremes, far apart when no dense store is involved; plus 60 'compaction cycle' programs on the paginated store "
-        "(k in-page unit adds then j far-apart adds in decreasing/increasing/random order, k and j around 32/64/96/128, observed only at phase ends). "
+        "(k in-page unit adds then j far-apart adds in decreasing/increasing/random order, k and j around 32/64/96/128, observed only at phase ends) and 24 round trips of "
+        "hash-map / buffered paginated stores whose consecutive indexes are more than 2^31 apart. "
         "distinct_nontrivial = distinct programs with at least two observations of a store holding two or more bins",
-        extra_cases=pag_cycles)
+        extra_cases=lambda rng: pag_cycles(rng) + far_codec(rng))
